@@ -265,6 +265,11 @@ func (p *Project) Transform() Query {
 		// combine projects by removing all but the first
 		return newProject(q.source, p.columns).Transform()
 	case *Summarize:
+		if q.wholeRow {
+			// the result is a single record of the source, plus the summary,
+			// the summarize can not be removed or rebuilt
+			break
+		}
 		cols := make([]string, 0, len(q.cols))
 		ops := make([]string, 0, len(q.ops))
 		ons := make([]string, 0, len(q.ons))
@@ -279,7 +284,10 @@ func (p *Project) Transform() Query {
 			return newProject(q.source, p.columns).Transform()
 		}
 		if set.HasSubset(p.columns, q.by) {
-			return NewSummarize(q.source, q.hint, q.by, cols, ops, ons).Transform()
+			su := NewSummarize(q.source, q.hint, q.by, cols, ops, ons)
+			if !su.wholeRow { // else it would add the columns of the source
+				return su.Transform()
+			}
 		}
 	case *Rename:
 		return p.transformRename(q)
